@@ -58,6 +58,8 @@ PROPS = {
               "C02_atropos_is_root: in every election-model state reachable from reset by processRoot calls whose roots oracle returns only roots of the asked frame, "
               "a returned Atropos is (frameToDecide, a) with a a root of that frame in the slot of a validator of the set (that the real roots table returns exactly the registered "
               "roots is C33; that roots are registered for the frames (spf, frame] is C04). "
+              "C02_reference_delivers / C02_reference_eq_model_delivered: in every run of one epoch (no seals) of the executable reference Spec/Lachesis.lean (the oracle of the cons stream) each block carries the Atropos of its frame by the Prop-level rules (C10), its events are exactly the protocol numbers of the ancestors-or-self of that Atropos not reached from an earlier Atropos (ascending), the confirmed mask is the union of these ancestries, "
+              "and any finished confirmEvents run of the model on the same DAG from the confirmed set of the earlier blocks delivers exactly those events and leaves the confirmed set of the next block (seals / several epochs not covered). "
               "Correspondence: each block's delivered set and ApplyEvent call count are compared with 'ancestry of the Atropos minus everything delivered before' "
               "computed by the reference; frames consecutive from 1; Atropos is a root of the frame (reference picks it among roots).",
               props=["LachesisVerif.Props.C02"], level="proof"),
@@ -66,8 +68,9 @@ PROPS = {
               "valid parents-first history of fewer than 2^32-nVals events, every indexed event taken as Atropos and ANY number/weight of forkers, exactly the "
               "ascending list of validator indices having two different equal-seq events among the ancestors-or-self of that event (C03_cheaters_exact, "
               "C03_mem_cheaters, C03_cheaters_sorted); a validator that never created two different events with one seq is never listed "
-              "(C03_honest_never_listed). Corollary of C06 (invariants I1/I2 by induction over the history). Not proved: that the event handed to "
-              "applyAtropos is the elected Atropos (C10) and the index->validator-ID map (C12). Correspondence: cheater lists of the real code compared with the "
+              "(C03_honest_never_listed). Corollary of C06 (invariants I1/I2 by induction over the history). "
+              "C03_reference_cheaters: in every run of one epoch (no seals) of the executable reference Spec/Lachesis.lean (the oracle of the cons stream) with fewer than 2^32-nVals events, block i names the Atropos of frame i+1 of the Prop-level rules (C10) and its cheater list is exactly the model's cheater loop output for that Atropos mapped through the reference's index->id table. "
+              "Not proved: that the event handed to applyAtropos in the real code is the elected Atropos (C10: model = reference) and the index->validator-ID map (C12); seals / several epochs for the reference corollary. Correspondence: cheater lists of the real code compared with the "
               "canonical-order list of validators having an equal-seq pair in the Atropos' ancestry.",
               props=["LachesisVerif.Props.C03"], level="proof", streams=["vec", "cons"]),
     "C04": _p("Proof: on the model of calcFrameIdx/checkAndSaveEvent (loop condition, cap +100, f==0->1, final comparison regenerated) Process accepts "
@@ -153,7 +156,14 @@ PROPS = {
               "Hypotheses of L5 beyond valid events + forkers < 1/3: observe = graph forkless cause (C05), canonical validator record with total <= 2^31-1 (C12), frames < 2^31, no sealing (one epoch). "
               "Reference equivalence (reference_anc_eq_rules, reference_fork_eq_rules, reference_hb_eq_rules, reference_fc_eq_rules, reference_fc_eq_rules_reachable, reference_hist_valid): for every instance of the executable reference Spec/Lachesis.lean built by Inst.insert "
               "(and every state the oracle reaches through process), bit-mask ancestry = Anc, forkIn / fork masks = ForkSeen, hbSpec = ForkSeen/MaxSeq, fcSpec = FCSpec = Net.FC with the same quorum; the associated history is Valid when inserted events pass the event checks. "
-              "Not proved: the frame/election part of the executable reference (rootsAt, quorumOn, allowed, votes, atroposSpec, decideLoop) versus the Prop-level rules, so 'model blocks = reference blocks' is proved against the Prop-level rules only; cheaters and confirmed events of a block; several epochs; restarts. "
+              "Frame and election part of the executable reference (Proofs/RefEquivH..M), for the states reached through process without seals on checked events (RefEquiv.Run; frame lemmas for every reachable state): "
+              "rootsAt lists exactly the graph roots, quorumOn = quorum of forkless-caused roots other than the event (reference_roots_eq_rules, reference_quorumOn_eq_rules); allowed = Net.Allowed = C04.Allowed = the model's frameAccepted, process accepts exactly the allowed frames "
+              "(reference_allowed_eq_rules, reference_process_accepts_iff_allowed); build/maxFrame = the model's calcFrameIdx = highest allowed frame <= spf+100 (reference_build_max); votesOfFrame computes voteYes and DecidesYes/No, yes-votes carry the candidate root (reference_votes_eq_rules); "
+              "atroposSpec f = atropos a <-> IsAtropos f a under BFT (soundness without BFT), undecided <-> no Atropos, allNo impossible for f >= 1 (reference_atropos_eq_rules); decideLoop emits exactly the blocks (frame k, Atropos of frame k) for k = ldf+1,... while an Atropos exists and the fuel size+2 never runs out "
+              "(reference_decideLoop_eq_rules, reference_blocks_eq_rules, incl. cheater list = stored fork mask = ForkSeen). C10_model_eq_reference_partial: for a run of the reference ending in state s with blocks out, and the model processing the events of the net of s in ANY parents-first order under Ctx, "
+              "the model accepts everything, ends with the same last decided frame, and its decided (frame, Atropos) list = the reference's block (frame, Atropos) list (Atropos by protocol number); C10_model_eq_reference_canon: the same with validity and accepted frames discharged by the run itself (remaining hypotheses: BFT, frames < 2^31, total <= 2^31-1, canonical validator record and oracle). "
+              "So 'model = executable reference' is closed inside Lean for the (frame, Atropos) sequence of one epoch; cheaters: C03_reference_cheaters; delivered events: C02_reference_delivers / C02_reference_eq_model_delivered. "
+              "Not proved: several epochs / seals (decideLoop with a seal, next-epoch instance), restarts; a multi-event Run cannot be evaluated by decide (Array.findIdx? does not reduce in the kernel), the non-vacuity witness is a one-event run. "
               "Correspondence (three-way): accepted frames and emitted blocks of the real code equal those of the independent reference implementation on every generated "
               "event set (forks below one third).", props=["LachesisVerif.Props.C10"], level="proof"),
     "C33": _p("Proof: for every history of addRoot/GetFrameRoots/epoch switches and EVERY cache eviction policy, GetFrameRoots f returns exactly "
